@@ -212,7 +212,34 @@ func (g *c14Gen) law() (jast.Node, O, string, interface{}) {
 	for _, k := range sortedKeysOf(o) {
 		keys = append(keys, k)
 	}
-	switch r.Intn(12) {
+	switch r.Intn(13) {
+	case 12:
+		// $keys of an array of objects: every member name of every object, once
+		n := r.Range(2, 4)
+		os := make(A, n)
+		union := map[string]bool{}
+		for j := range os {
+			m := g.object()
+			os[j] = m
+			for k := range m {
+				union[k] = true
+			}
+		}
+		doc["os"] = os
+		osv := &jast.Name{V: "os"}
+		if len(union) == 0 {
+			return call("count", call("keys", osv)), doc, "law:keys-of-array-empty", 0.0
+		}
+		names := make([]string, 0, len(union))
+		for k := range union {
+			names = append(names, k)
+		}
+		sort.Strings(names)
+		want := make([]interface{}, len(names))
+		for i, k := range names {
+			want[i] = k
+		}
+		return call("sort", call("keys", osv)), doc, "law:keys-of-array", interface{}(want)
 	case 11:
 		// $spread over an array of objects: one single-member object per member
 		// of every object (an object without members contributes nothing)
@@ -339,7 +366,7 @@ func init() {
 	fw.Register(&fw.Prop{
 		ID: "C14", Title: "Object construction, grouping and object functions share one object model",
 		Rule: "cases: PRNG-generated (a) groupings arr{k: v, ...} and constructor steps arr.{k: v} over 0..8 objects with unique ids whose key expression (member, concatenation, conditional, literal) maps onto 1..4 distinct strings with collisions, absent keys and non-string keys, 1..3 pairs, value expressions member / $sum / $count / nested object / nested array / missing / literal, judged by the reference model (objects unordered; duplicate-key vs illegal-key: either accepted when both faults are present); " +
-			"(b) the partition law checked structurally on arr{g: id}: every id exactly once, in input order within its group; (c) object-function laws evaluated on generated null-free objects of 0..6 members: $merge($spread(o)) = o, $count($keys(o)) = $count($spread(o)), sorted $keys = sorted member names, $each visits every member once, $sift(o, true) = o, $lookup(o,k) = o.k, $lookup(os,k) = os.k for arrays os of 1..4 such objects (array-valued members flattened), $merge([o,p]) = right-biased union, $merge([o,p,o]) = o over p, $spread count, and for arrays of objects (some without members) $count($spread(os)) = number of members and $merge($spread(os)) = $merge(os). " +
+			"(b) the partition law checked structurally on arr{g: id}: every id exactly once, in input order within its group; (c) object-function laws evaluated on generated null-free objects of 0..6 members: $merge($spread(o)) = o, $count($keys(o)) = $count($spread(o)), sorted $keys = sorted member names, $each visits every member once, $sift(o, true) = o, $lookup(o,k) = o.k, $lookup(os,k) = os.k for arrays os of 1..4 such objects (array-valued members flattened), $merge([o,p]) = right-biased union, $merge([o,p,o]) = o over p, $spread count, and for arrays of objects (some without members) $count($spread(os)) = number of members and $merge($spread(os)) = $merge(os), sorted $keys(os) = sorted union of the member names. " +
 			"non-trivial = >=2 items or >=2 members; distinct by (program, input)",
 		Assumptions: []string{"a one-item group presents the item itself to the value expression (reference implementation; the port after its repair)", "an absent key counts as 'not a string' (ErrIllegalKey), as in the port"},
 		Plan: func(tier string, seed uint64) *fw.Plan {
